@@ -77,16 +77,16 @@ queue_unit('add_owner.specpos', 1, 'bus_service_add_owner', 2, ['add.specpos'],
            'position of a waiting requester strictly by the specification text (REPLACE_EXISTING given but replacement not possible: appended / unchanged)',
            defines=['VERIF_STRICT'], props=('C04',), replay='queuepos', expect_s=140)
 queue_unit('add_owner.cancel', 1, 'bus_service_add_owner + cancel_ownership', 2, ['add.cancel'],
-           'transaction cancel after a successful add_owner: queue, counters and registry as before', defines=['VERIF_HOOK', 'VERIF_ASSERT_NO_ASSUME'], props=('C14', 'C04'))
+           'transaction cancel after a successful add_owner: queue, counters and registry as before', defines=['VERIF_HOOK', 'VERIF_ASSERT_NO_ASSUME'], props=('C14', 'C04'), tier='thorough', expect_s=140)
 REM = 'queue after = old queue without the requester; NameLost -> NameOwnerChanged -> NameAcquired with the specified addressees; FALSE => nothing changed, error set'
 queue_unit('remove_owner', 2, 'bus_service_remove_owner', 2, ['rem.queue', 'rem.sig', 'rem.fail'], REM)
 queue_unit('remove_owner.n3', 2, 'bus_service_remove_owner', 3, ['rem.queue', 'rem.sig', 'rem.fail'], REM, tier='thorough', expect_s=230)
 queue_unit('remove_owner.restore', 2, 'bus_service_remove_owner + restore_ownership', 2, ['rem.restore'],
-           'transaction cancel after a successful removal of the primary: owner back at its place, not deallocated', defines=['VERIF_HOOK', 'VERIF_ASSERT_NO_ASSUME'], props=('C14', 'C04'), replay='remove', expect_s=300)
+           'transaction cancel after a successful removal of the primary: owner back at its place, not deallocated', defines=['VERIF_HOOK', 'VERIF_ASSERT_NO_ASSUME'], props=('C14', 'C04'), replay='remove', expect_s=330, tier='thorough')
 queue_unit('swap_owner', 3, 'bus_service_swap_owner', 3, ['swap.queue', 'swap.sig', 'swap.fail'],
            'second entry becomes primary, old primary second; NameLost -> NameOwnerChanged -> NameAcquired; FALSE => nothing changed, error set')
 queue_unit('swap_owner.restore', 3, 'bus_service_swap_owner + restore_ownership', 2, ['swap.restore'],
-           'transaction cancel after a successful swap: old primary back at the head, nobody twice in the queue', defines=['VERIF_HOOK', 'VERIF_ASSERT_NO_ASSUME'], props=('C14', 'C04'), replay='swap', expect_s=200)
+           'transaction cancel after a successful swap: old primary back at the head, nobody twice in the queue', defines=['VERIF_HOOK', 'VERIF_ASSERT_NO_ASSUME'], props=('C14', 'C04'), replay='swap', expect_s=150, tier='thorough')
 
 # ---------------------------------------------------------------- driver methods around the registry
 DRV_STUBS = [dict(name='dbus_message_get_args / dbus_message_append_args / dbus_message_new_method_return / dbus_message_iter_*', file='dbus/dbus-message.c', status='stub',
